@@ -28,7 +28,7 @@ class Untranslatable(Exception):
 
 BITS = {"u8": 8, "u16": 16, "u32": 32, "u64": 64, "usize": 64, "u128": 128}
 
-TOKEN = re.compile(r"\s*(?:(\d[\d_]*(?:_?(?:u8|u16|u32|u64|usize|u128))?|0x[0-9a-fA-F_]+(?:_?(?:u8|u16|u32|u64|usize|u128))?)|([A-Za-z_]\w*)|(<<=|>>=|\.\.=|==|!=|<=|>=|&&|\|\||<<|>>|\+=|-=|\*=|/=|%=|\^=|&=|\|=|::|->|=>|\.\.|[-+*/%^&|!<>=(){}\[\];:,.#]))")
+TOKEN = re.compile(r"\s*(?:(0x[0-9a-fA-F_]+(?:_?(?:u8|u16|u32|u64|usize|u128))?|\d[\d_]*(?:_?(?:u8|u16|u32|u64|usize|u128))?)|([A-Za-z_]\w*)|(<<=|>>=|\.\.=|==|!=|<=|>=|&&|\|\||<<|>>|\+=|-=|\*=|/=|%=|\^=|&=|\|=|::|->|=>|\.\.|[-+*/%^&|!<>=(){}\[\];:,.#]))")
 
 def tokenize(src):
     out, i = [], 0
@@ -205,6 +205,19 @@ class Parser:
             return ("id", "::".join(path))
         if v == "(":
             e = self.expr(); self.expect(")"); return ("paren", e)
+        if v == "[":
+            items = []
+            if self.accept("]"): return ("array", items)
+            first = self.expr()
+            if self.accept(";"):
+                n = self.expr(); self.expect("]")
+                return ("repeat", first, n)
+            items.append(first)
+            while self.accept(","):
+                if self.peek()[1] == "]": break
+                items.append(self.expr())
+            self.expect("]")
+            return ("array", items)
         raise Untranslatable("unexpected token %r" % v)
 
 
@@ -217,6 +230,8 @@ class Gen:
         self.helpers = helpers or {}    # method name -> (params, expr AST) single-expression helpers of the same impl
         self.n = 0
         self.uses_fuel = False
+        self.free_helpers = {}          # free fn name -> ([(param, type)], expr AST): single-expression fns of the same file, inlined
+        self.externs = {}               # "self.m" / "self.f.m" -> (gallina function, state key): opaque calls (state, array) -> (state, array)
         self.usize_vars = set()         # un-annotated integer variables that Rust infers as usize (used as an index / against .len())
     def fresh(self, base="t"):
         self.n += 1; return "%s%d" % (base, self.n)
@@ -263,6 +278,19 @@ class Gen:
                     return "match nth_error %s (N.to_nat %s) with None => None | Some %s =>\n  %s end" % (a, i, v, k(v, ta[1]))
                 return self.expr(e[2], ki, "usize")
             return self.expr(e[1], ka)
+        if kind == "array":
+            items = e[1]
+            def go(i, acc, ty):
+                if i == len(items):
+                    return k("[" + "; ".join(acc) + "]", ("arr", ty or "u8"))
+                return self.expr(items[i], lambda t, tt: go(i + 1, acc + [t], self.unify(ty, tt if tt in BITS else None, "array literal")), ty)
+            return go(0, [], None)
+        if kind == "repeat":
+            def kv(v, tv):
+                def kn2(n_, tn):
+                    return k("(repeat %s (N.to_nat %s))" % (v, n_), ("arr", tv or "u8"))
+                return self.expr(e[2], kn2, "usize")
+            return self.expr(e[1], kv)
         if kind == "slice":
             def ka(a, ta):
                 if not (isinstance(ta, tuple) and ta[0] == "arr"): raise Untranslatable("slicing a non-array")
@@ -331,6 +359,13 @@ class Gen:
                         return k("((%s * %s) mod %d)" % (a, b, m), t)
                     return self.expr(args[0], kb, ta)
                 return self.expr(recv, ka, want)
+            if name in ("to_be_bytes", "to_le_bytes") and not args:
+                def kb_(a, ta):
+                    if ta not in BITS: raise Untranslatable(".%s() of %s" % (name, ta))
+                    nbytes = BITS[ta] // 8
+                    t_ = "(N_to_le %d %s)" % (nbytes, a)
+                    return k("(rev %s)" % t_ if name == "to_be_bytes" else t_, ("arr", "u8"))
+                return self.expr(recv, kb_)
             if name == "len" and not args:
                 def kn_(a, ta):
                     if not (isinstance(ta, tuple) and ta[0] == "arr"): raise Untranslatable(".len() of a non-array")
@@ -360,6 +395,27 @@ class Gen:
                     if ta not in BITS or BITS[tgt] < BITS[ta]: raise Untranslatable("%s of %s" % (e[1], ta))
                     return k(a, tgt)
                 return self.expr(e[2][0], kf)
+            if e[1] in self.free_helpers:
+                params, body = self.free_helpers[e[1]]
+                if len(params) != len(e[2]): raise Untranslatable("helper arity %s" % e[1])
+                saved = dict(self.env)
+                def bind(i):
+                    if i == len(params):
+                        def kdone(t, tt):
+                            self.env = saved_env_holder[0]
+                            return k(t, tt)
+                        return self.expr(body, kdone, want)
+                    pname, pty = params[i]
+                    def kp(t, tt):
+                        g = "h_%s_%s" % (e[1], pname)
+                        self.env[pname] = (g, pty if pty in BITS else tt)
+                        return "let %s := %s in\n  %s" % (g, t, bind(i + 1))
+                    # arguments are evaluated in the caller's environment
+                    cur = dict(self.env); self.env = dict(saved)
+                    r = self.expr(e[2][i], lambda t, tt: (setattr(self, "env", cur), kp(t, tt))[1], pty if pty in BITS else None)
+                    return r
+                saved_env_holder = [saved]
+                return bind(0)
             raise Untranslatable("call of %s" % e[1])
         raise Untranslatable("expression kind %s" % kind)
 
@@ -435,6 +491,17 @@ class Gen:
                     raise Untranslatable("assignment changes the type of %s: %s := %s" % (key, t0, tt))
                 return "let %s := %s in\n  %s" % (g, t, self.stmts(rest, final))
             return self.expr(e, k, t0 if t0 in BITS else None)
+        if s[0] == "expr_stmt" and s[1][0] == "call":
+            e = s[1]
+            path = None
+            if e[1] == ("id", "self"): path = "self." + e[2]
+            elif e[1][0] == "field" and e[1][1] == ("id", "self"): path = "self.%s.%s" % (e[1][2], e[2])
+            if path in self.externs and len(e[3]) == 1:
+                fn_, skey = self.externs[path]
+                akey = self.lhs_key(e[3][0])
+                if akey is None or akey not in self.env or skey not in self.env: raise Untranslatable("external call argument")
+                sg, _ = self.env[skey]; ag, _ = self.env[akey]
+                return "match %s %s %s with None => None | Some (%s, %s) =>\n  %s end" % (fn_, sg, ag, sg, ag, self.stmts(rest, final))
         if s[0] == "expr_stmt":
             e = s[1]
             if e[0] == "call" and e[2] == "swap" and len(e[3]) == 2:
